@@ -2,6 +2,7 @@ import Pyxv.Model.Json
 import Pyxv.Model.OpsForm
 import Pyxv.Model.Controls
 import Pyxv.Model.TableList
+import Pyxv.Model.OpsEntities
 /-! Driver operations for the body-control attributes (C04, second half). -/
 namespace Pyxv.Controls
 open Lean Pyxv Pyxv.Rows Pyxv.Form
@@ -46,13 +47,70 @@ def controlsModel (root : Str) (lists : List Str) (rows : List Cells) (settings 
         ("specAttrs", Json.arr ((numbered (Spec.rowSpecs lists) nrows).map pairsToJson).toArray),
         ("expanded", Json.bool (nrows.length != rows.length))]
 
+/-- the `meta/entity` node (children by name) appended to the meta block of the instance -/
+def addEntity (kids : List Str) : NT → NT
+  | .node root t ks =>
+    let ent := NT.node (k!"entity") false (kids.map fun k => NT.node k false [])
+    match ks.reverse with
+    | .node n mt mks :: before =>
+      if n = (k!"meta") then .node root t ((NT.node n mt (mks ++ [ent]) :: before).reverse)
+      else .node root t (ks ++ [NT.node (k!"meta") false [ent]])
+    | [] => .node root t [NT.node (k!"meta") false [ent]]
+
+/-- forms with an entities sheet or `save_to` cells: the declaration, its binds and the validity of the
+    `save_to` cells are `Pyxv.Entities` (op `entities.model`); the rows themselves are plain questions here -/
+def withEntities (j : Json) (base : Json) : Json :=
+  let unsup (w : String) := Json.mkObj [("outcome", "unsupported"), ("why", Json.str w)]
+  match Entities.opsEntities "entities.model" j with
+  | some (.ok e) =>
+    (match e.getObjVal? "outcome" with
+     | .ok (.str "ok") =>
+       (match base.getObjVal? "outcome" with
+        | .ok (.str "ok") =>
+          (match e.getObjVal? "entity" with
+           | .ok (.obj _) =>
+             let ent := (e.getObjVal? "entity").toOption.getD Json.null
+             let kids : List Str := match ent.getObjVal? "kids" with
+               | .ok (.arr a) => a.toList.filterMap fun x => match x with | .str s => some s.toList | _ => none
+               | _ => []
+             let nodes : List Json := match e.getObjVal? "nodes" with | .ok (.arr a) => a.toList | _ => []
+             let nodesets : List Json := nodes.filterMap fun n =>
+               match n.getObjVal? "tag", n.getObjVal? "attrs" with
+               | .ok (.str "bind"), .ok (.arr attrs) =>
+                 attrs.toList.findSome? fun p => match p with
+                   | .arr #[.str "nodeset", .str v] => some (Json.str v)
+                   | _ => none
+               | _, _ => none
+             let inst := match base.getObjVal? "instance" with
+               | .ok ij => (match ntOfJson ij with | .ok nt => ntToJson (addEntity kids nt) | .error _ => ij)
+               | .error _ => Json.null
+             let binds := match base.getObjVal? "binds" with | .ok (.arr a) => a.toList | _ => []
+             base.setObjVal! "instance" inst |>.setObjVal! "binds" (Json.arr (binds ++ nodesets).toArray)
+               |>.setObjVal! "entity" (Json.bool true)
+           | _ => base)
+        | _ => base)
+     | .ok (.str "unsupported") => unsup ("entities: " ++ (match e.getObjVal? "why" with | .ok (.str w) => w | _ => "?"))
+     | _ =>
+       -- rejected by the entities stage; an unsupported answer of the structural stage dominates
+       (match base.getObjVal? "outcome" with
+        | .ok (.str "unsupported") => base
+        | _ => errJson "entities" "rejected by the entities sheet / save_to validation"))
+  | _ => unsup "entities op"
+
 def opsControls (op : String) (j : Json) : Option (Except String Json) :=
   match op with
   | "controls.model" => some do
       let rows ← (← getArr j "rows").toList.mapM cellsOfJson
       let lists ← getStrList j "lists"
       let settings ← cellsOfJson (← j.getObjVal? "settings")
-      pure (controlsModel (getStrD j "root" "data") lists rows settings)
+      let base := controlsModel (getStrD j "root" "data") lists rows settings
+      let hasEnt := match j.getObjVal? "entities" with | .ok (.arr a) => !a.isEmpty | _ => false
+      let hasSaveto := rows.any fun r => has r "bind::entities:saveto"
+      if hasEnt || hasSaveto then
+        let j' := (j.setObjVal! "survey" ((j.getObjVal? "rows").toOption.getD Json.null))
+        let j' := match j.getObjVal? "entities" with | .ok _ => j' | .error _ => j'.setObjVal! "entities" (Json.arr #[])
+        pure (withEntities j' base)
+      else pure base
   | "controls.params" => some do
       let raw ← getStr j "raw"
       pure (match parseParams raw with
